@@ -615,7 +615,7 @@ def set_arg(pos, val):
 
 # ============================================================================= property checks
 CORE_INV = ['OK', 'ExactlyOnePlace', 'RunnableSaved', 'RunOnce', 'ReapOnce', 'NoUseAfterFree', 'StackOwner']
-CORE_ACTIONS = ['QPop', 'QTake', 'QPush', 'QPut', 'SchedRun', 'SpinAcq', 'SpinRel', 'DescAlloc', 'StackAlloc', 'CreateCF',
+CORE_ACTIONS = ['QPop', 'QTake', 'QPush', 'QPut', 'SchedRun', 'SpinAcq', 'SpinRel', 'DescAlloc', 'StackAlloc', 'MkCtx', 'CreateCF',
                 'CreatePF', 'UCreateRet', 'CbEnter', 'CbExit', 'ThreadEntry', 'UBodyStart', 'FinWaiter', 'StackFree',
                 'FinDet', 'Publish', 'DescFree', 'JoinChk', 'SetBlocked', 'JoinSet', 'JoinReap', 'UJoinRet',
                 'TryJoinChk', 'UTryJoinRet', 'DetachQuick', 'DetachChk', 'SetDetached', 'UDetachRet', 'UYieldRet']
